@@ -13,7 +13,7 @@ import ast
 import hashlib
 import os
 from dataclasses import dataclass, field
-from typing import Dict, Iterator, List, Optional, Tuple, Union
+from typing import Dict, Iterator, List, Optional, Set, Tuple, Union
 
 REPO = os.environ.get("SA_REPO", "/repo")
 PKG = "mygrad"
@@ -283,6 +283,8 @@ class Project:
         self._index()
         self._link_classes()
         self.inline_log: List[str] = []
+        self.absorbed: Set[str] = set()
+        self.inlined_edges: Set[Tuple[str, str]] = set()
         if os.environ.get("SA_NO_INLINE") != "1":
             from .inline import inline_helpers
             self.inline_log = inline_helpers(self)
@@ -617,7 +619,8 @@ class Project:
         return [c for c in self.operation_classes() if not c.is_abstract()]
 
     def all_functions(self) -> Iterator[FunctionInfo]:
-        return iter(sorted(self.functions.values(), key=lambda f: f.qualname))
+        ab = getattr(self, "absorbed", set())
+        return iter(sorted((f for f in self.functions.values() if f.qualname not in ab), key=lambda f: f.qualname))
 
     def loc(self, f_or_mod, node: ast.AST) -> str:
         rel = f_or_mod.relpath if isinstance(f_or_mod, Module) else f_or_mod.module.relpath
